@@ -64,6 +64,10 @@ type Explorer struct {
 	forkSites   map[string]int
 	slowest     time.Duration
 	slowestDesc string
+	collect     int // selftest: number of complete models to keep
+	stride      int
+	models      []map[string]uint64
+	lastNotes   []string
 }
 
 func newExplorer(cfg *Config, entry *ssa.Function) *Explorer {
@@ -313,6 +317,14 @@ func (ex *Explorer) runPath(s *Solver, it WorkItem) {
 		for k, v := range in.stubHits {
 			ex.stubHits[k] += v
 		}
+	}
+	ex.lastNotes = p.userNotes
+	if ex.collect > len(ex.models) && end == "completed" && (ex.stride <= 1 || ex.paths%ex.stride == 0) {
+		m := map[string]uint64{}
+		for _, v := range p.vars {
+			m[v.name] = p.model.vals[v.name] & maskB(v.w)
+		}
+		ex.models = append(ex.models, m)
 	}
 	if len(ex.samples) < 6 && (end == "completed" || end == "violation" || end == "known-finding") {
 		var reached []string
